@@ -30,6 +30,7 @@ func runC16(c *Ctx) {
 	checkListingStableAndEventIds(c)
 	checkNoteKindSystemFirst(c)
 	checkGithubStickyErrorAndTitle(c)
+	checkIdentityFoundByWhatWasStored(c, "R16.16")
 }
 
 // R16.1
@@ -309,6 +310,51 @@ func checkLookupBeforeCreate(c *Ctx) {
 					}
 				}
 				c.Check(okCmp, "R16.2", key+":edit-iff-differs", w.InstrPos(cl.Instr), "an edit is created only when the text it stores differs from the message held by the comment it edits", whyCmp)
+			}
+			if strings.HasPrefix(m, "EditCreateComment") {
+				// the edit of the first comment is created iff the text it stores differs from the text the first
+				// comment holds NOW (the snapshot's comment), not from the text the bug was created with
+				okCmp, whyCmp := false, "the edit of the first comment is not conditional on a comparison of its current message with the text it would store"
+				args := cl.Args()
+				if len(args) >= 3 {
+					msg := args[2]
+					for _, cc := range controlConds(cl.Block(), nil) {
+						bo, isBo := cc.If.Cond.(*ssa.BinOp)
+						if !isBo || !isStringType(bo.X.Type()) {
+							continue
+						}
+						op := bo.Op
+						if cc.Edge == 1 {
+							op = negateOp(op)
+						}
+						if op != token.NEQ {
+							continue
+						}
+						var held ssa.Value
+						switch {
+						case bo.X == msg:
+							held = bo.Y
+						case bo.Y == msg:
+							held = bo.X
+						default:
+							continue
+						}
+						base, f, isF := loadOfField(held)
+						if !isF || f != "Message" {
+							continue
+						}
+						bt := base.Type()
+						if p, isP := bt.Underlying().(*types.Pointer); isP {
+							bt = p.Elem()
+						}
+						if strings.HasSuffix(typeShortName(bt), "bug.Comment") {
+							okCmp = true
+						} else {
+							whyCmp = "the text to store is compared at " + w.InstrPos(bo) + " with the Message of a " + typeShortName(bt) + " (the text the bug was created with), not with the current message of the first comment: a description changed back to its original text records nothing, and two changes between two imports record the last one twice"
+						}
+					}
+				}
+				c.Check(okCmp, "R16.2", key+":edit-iff-differs", w.InstrPos(cl.Instr), "the first comment is edited only when the text stored differs from the message it holds now", whyCmp)
 			}
 			c.Check(guarded, "R16.2", key+":lookup-first", w.InstrPos(cl.Instr), why, "the operation/entity is created without consulting the look-up by tracker id: importing the same tracker state again creates it again")
 			// metadata tag
